@@ -39,6 +39,12 @@ CLAIMED = {
          "per-QFI burst configurations, the session shapes (2-3 PDRs x every ordered QER list over three ids x GBR / MBR patterns; 278 528 shapes) are enumerated: a seed-dependent stride in the quick tier, all of them in the thorough tier.",
          "UP4 meters are judged by C04 once built; re-labelling after QER-creating/updating modifications is the listed known finding F-QER-RELABEL (named slack). " + TRUST,
          "5 C09"),
+ "C14": ("TLA+ R-spec Pfcp!EndMarkersDue: TLC compares the decoded packets of the end-marker socket with the markers due for the pre-update session state",
+         "Every packet the real agent writes to the end-marker unixpacket socket is decoded (Ethernet/IPv4/UDP/GTPv1-U) and TLC checks, per Session Modification, that the multiset of markers equals "
+         "EndMarkersDue (one per updated existing FAR with SNDEM, old peer address, old TEID, source address of the old interface), UDP 2152->2152, GTP message type 254, none for flag off / unknown FAR id / "
+         "rejected modification / creation / end markers disabled, and that each marker arrives after the held farLookup add was acknowledged.",
+         "BESS datapath only so far (UP4 PacketOut pending); ordering is observed by delaying the FAR programming by 25 ms. " + TRUST,
+         "5 C14"),
 }
 
 def hooks_commits():
